@@ -43,8 +43,8 @@ META = {
                           'judged_unpickled', 'judged_child_digest', 'medium_json_str', 'medium_json_bytes',
                           'medium_json_pathlike', 'medium_json_fileobj', 'medium_literal_string',
                           'medium_literal_file', 'medium_pickle', 'digests_compared',
-                          'Context.__getstate__', 'Context.__setstate__', 'Lattice.__getstate__',
-                          'Lattice.__setstate__', 'Relation.__reduce__', 'Vectors.__reduce__',
+                          
+                          
                           'child_processes', 'sibling_histories', 'returned_dict_edited_in_place',
                           'earlier_unpickled_contexts_requeried', 'same_label_histories'],
     'shards': {'quick': 16, 'thorough': 16},
